@@ -269,6 +269,10 @@ def forgeries(m):
         F("report-unauthenticated-error-status-%d" % status, flags=0, pdu_tag=snmp.PDU_REPORT, es=status, ei=1)
         F("response-unauthenticated-error-status-%d" % status, flags=0, es=status, ei=1)
         F("response-zero-digest-error-status-%d" % status, flags=1, auth=Z12, es=status, ei=1)
+        # ... as agents send reports before they know the user (empty msgUserName)
+        F("report-unauthenticated-empty-user-error-status-%d" % status, flags=0, pdu_tag=snmp.PDU_REPORT, es=status, ei=1, user_name=b"")
+        F("response-unauthenticated-empty-user-error-status-%d" % status, flags=0, es=status, ei=1, user_name=b"")
+        F("report-unauthenticated-empty-user-usmStats-error-status-%d" % status, flags=0, pdu_tag=snmp.PDU_REPORT, es=status, ei=1, user_name=b"", varbinds=[(usm.USM_STATS["unknownUserNames"], ("c32", 1))])
     # the authentic message with only its flags octet rewritten
     for fl in (0, 1, 2, 3, 4, 5, 7):
         out.append(("authentic-with-flags-%d" % fl, lambda req, resp, entry, fl=fl: _set_flags(resp, fl)))
